@@ -7,6 +7,7 @@ import (
 	"go/ast"
 	"go/token"
 	"go/types"
+	"math/big"
 	"os"
 	"sort"
 	"strings"
@@ -39,6 +40,7 @@ func runC10(p *Prog, r *Report) {
 	c10Recursion(p, r)
 	c10LoopProgress(p, r)
 	c10LexerEOF(p, r)
+	c10Bounds(p, r)
 	r.Floor("R10.1-panics", 8)
 	r.Floor("R10.3-nil-deref", 40)
 	r.Floor("R10.4-index", 8)
@@ -1598,4 +1600,344 @@ func c10LexerEOF(p *Prog, r *Report) {
 		}
 	}
 	r.Check(total >= 8, rule, "sites", "-", itoa(total)+" sentinel-driven lexer loops", "expected at least 8 lexer loops that read through a saturating reader, found "+itoa(total))
+}
+
+// ---------------------------------------------------------------------------------------------
+// R10.4c every index and slice expression of the hand-written text decoders in package types and internal/rust is in
+// bounds: 0 <= i (intervals, E8) and i < len(s) (a dominating comparison with the length of the same sequence, a
+// length fact for a constant index, or the strings.Index contract).
+
+func c10Bounds(p *Prog, r *Report) {
+	const rule = "R10.4-bounds"
+	scope := func(f *ssa.Function) bool {
+		return fnPkgPath(f) == pTypes && len(f.Blocks) > 0
+	}
+	e := newIvEngine(p, scope)
+	n := 0
+	failed := map[string]bool{}
+	ctxOf := map[*ssa.Function][]*ivFn{}
+	var fns []*ssa.Function
+	for _, fn := range p.Funcs {
+		if !scope(fn) || fn.Synthetic != "" || (fn.Origin() != nil && fn.Origin() != fn) {
+			continue
+		}
+		if fn.Pkg != nil && fn.Name() == "init" {
+			continue
+		}
+		fns = append(fns, fn)
+	}
+	allow := map[string]string{}
+	for _, fn := range fns {
+		if why, ok := allow[fnQual(fn)]; ok {
+			r.OK(rule, fnQual(fn)+":allowed", p.pos(fn.Pos()), "not analysed: "+why)
+			continue
+		}
+		var ctxs []*ivFn
+		if fn.Parent() != nil || token.IsExported(fn.Name()) {
+			top := e.analyze(fn, nil)
+			e.finalize(top)
+			ctxs = append(ctxs, top)
+		}
+		ctxOf[fn] = ctxs
+	}
+	for _, fn := range fns {
+		if _, ok := allow[fnQual(fn)]; ok {
+			continue
+		}
+		ctxs := ctxOf[fn]
+		if len(ctxs) == 0 {
+			// unexported: the contexts its (finalised) callers create; every argument when nothing in scope calls it
+			var keys []string
+			for k, c := range e.memo {
+				if c.fn == fn && c.finalized {
+					keys = append(keys, k)
+				}
+			}
+			sort.Strings(keys)
+			for _, k := range keys {
+				ctxs = append(ctxs, e.memo[k])
+			}
+			if len(ctxs) == 0 {
+				top := e.analyze(fn, nil)
+				e.finalize(top)
+				ctxs = append(ctxs, top)
+			}
+		}
+		for _, a := range ctxs {
+			counts := map[string]int{}
+			forEachInstr(fn, func(in ssa.Instruction) {
+				var seq ssa.Value
+				type need struct {
+					idx    ssa.Value
+					strict bool // element access: idx < len; slice bound: idx <= len
+					what   string
+				}
+				var needs []need
+				switch x := in.(type) {
+				case *ssa.Lookup:
+					if _, isMap := x.X.Type().Underlying().(*types.Map); isMap {
+						return
+					}
+					seq = x.X
+					needs = append(needs, need{x.Index, true, "index"})
+				case *ssa.IndexAddr:
+					seq = x.X
+					needs = append(needs, need{x.Index, true, "index"})
+				case *ssa.Index:
+					seq = x.X
+					needs = append(needs, need{x.Index, true, "index"})
+				case *ssa.Slice:
+					seq = x.X
+					if x.Low != nil {
+						needs = append(needs, need{x.Low, false, "low bound"})
+					}
+					if x.High != nil {
+						needs = append(needs, need{x.High, false, "high bound"})
+					}
+				default:
+					return
+				}
+				b := in.Block()
+				gs := ivGuards(b)
+				// fixed-size arrays
+				fixed := int64(-1)
+				st := seq.Type()
+				if pt, ok := st.Underlying().(*types.Pointer); ok {
+					st = pt.Elem()
+				}
+				if at, ok := st.Underlying().(*types.Array); ok {
+					fixed = at.Len()
+				}
+				if s, ok := constString(seq); ok {
+					fixed = int64(len(s))
+				}
+				lenLo := lenLowerBound(a, seq, gs, b)
+				for _, nd := range needs {
+					n++
+					text := e.exprText(fn, in, "")
+					base := fnQual(fn) + ":" + nd.what + ":" + text
+					counts[base]++
+					key := base
+					if counts[base] > 1 {
+						key += "#" + itoa(counts[base])
+					}
+					iv := a.get(nd.idx, b)
+					if iv.top {
+						iv = kindOfType(nd.idx.Type()).full()
+					}
+					lowOK := !iv.top && !iv.float && iv.lo.Sign() >= 0
+					highOK, why := false, ""
+					lim := func(k *big.Int) bool { // k within [0,len) or [0,len]
+						if nd.strict {
+							return k.Cmp(lenLo) < 0
+						}
+						return k.Cmp(lenLo) <= 0
+					}
+					switch {
+					case fixed >= 0 && !iv.top && !iv.float && (nd.strict && iv.hi.Cmp(big.NewInt(fixed)) < 0 || !nd.strict && iv.hi.Cmp(big.NewInt(fixed)) <= 0):
+						highOK, why = true, "fixed length "+itoa(int(fixed))
+					case !iv.top && !iv.float && lim(iv.hi):
+						highOK, why = true, "length is at least "+lenLo.String()
+					}
+					if !highOK {
+						// relational: idx < len(seq) (or <= for slice bounds) among the guards
+						lk := "(len " + termKey(seq, 0) + ")"
+						for _, g := range gs {
+							x, y, op, ok := relOf(g)
+							if !ok {
+								continue
+							}
+							if termKey(x, 0) == termKey(nd.idx, 0) && termKey(y, 0) == lk && (op == token.LSS || (!nd.strict && op == token.LEQ)) {
+								highOK, why = true, "compared with len"
+							}
+							if termKey(y, 0) == termKey(nd.idx, 0) && termKey(x, 0) == lk && (op == token.GTR || (!nd.strict && op == token.GEQ)) {
+								highOK, why = true, "compared with len"
+							}
+						}
+					}
+					if !highOK {
+						// idx = base + c with base < len(seq): base+1 <= len
+						if bo, ok := nd.idx.(*ssa.BinOp); ok && bo.Op == token.ADD {
+							if c, ok := constInt(bo.Y); ok && (c <= 0 || (c == 1 && !nd.strict)) {
+								lk := "(len " + termKey(seq, 0) + ")"
+								for _, g := range gs {
+									x, y, op, ok := relOf(g)
+									if !ok {
+										continue
+									}
+									if termKey(x, 0) == termKey(bo.X, 0) && termKey(y, 0) == lk && op == token.LSS {
+										highOK, why = true, "base < len, offset <= 1"
+									}
+									if termKey(y, 0) == termKey(bo.X, 0) && termKey(x, 0) == lk && op == token.GTR {
+										highOK, why = true, "base < len, offset <= 1"
+									}
+								}
+							}
+						}
+						// idx = X - c (or X) where X starts at len(seq) and only decreases
+						base, off := nd.idx, int64(0)
+						if bo, ok := nd.idx.(*ssa.BinOp); ok && bo.Op == token.SUB {
+							if c, ok := constInt(bo.Y); ok {
+								base, off = bo.X, c
+							}
+						}
+						if ph, ok := base.(*ssa.Phi); ok && (off >= 1 || (!nd.strict && off >= 0)) {
+							good := true
+							for _, ed := range ph.Edges {
+								if termKey(ed, 0) == "(len "+termKey(seq, 0)+")" {
+									continue
+								}
+								if sb, ok := ed.(*ssa.BinOp); ok && sb.Op == token.SUB && sb.X == ssa.Value(ph) {
+									if c, ok := constInt(sb.Y); ok && c >= 0 {
+										continue
+									}
+								}
+								good = false
+							}
+							if good {
+								highOK, why = true, "counts down from len"
+							}
+						}
+						// a slice made with the length of another sequence: make([]T, len(other)) indexed under i < len(other)
+						if ms, ok := seq.(*ssa.MakeSlice); ok {
+							lk := termKey(ms.Len, 0)
+							for _, g := range gs {
+								x, y, op, ok := relOf(g)
+								if !ok {
+									continue
+								}
+								if termKey(x, 0) == termKey(nd.idx, 0) && termKey(y, 0) == lk && (op == token.LSS || (!nd.strict && op == token.LEQ)) {
+									highOK, why = true, "compared with the length the slice was made with"
+								}
+							}
+						}
+					}
+					if !highOK {
+						// idx = len(seq) - c
+						if bo, ok := nd.idx.(*ssa.BinOp); ok && bo.Op == token.SUB && termKey(bo.X, 0) == "(len "+termKey(seq, 0)+")" {
+							if c := constBig(bo.Y); c != nil && c.Sign() >= 0 && (c.Sign() > 0 || !nd.strict) {
+								highOK, why = true, "len minus a constant"
+							}
+						}
+						// idx = len(seq)
+						if !nd.strict && termKey(nd.idx, 0) == "(len "+termKey(seq, 0)+")" {
+							highOK, why = true, "len"
+						}
+					}
+					if !highOK {
+						// strings.Index contract: r + len(sep) <= len(s)
+						base, off := nd.idx, int64(0)
+						if bo, ok := nd.idx.(*ssa.BinOp); ok && bo.Op == token.ADD {
+							if c, ok := constInt(bo.Y); ok {
+								base, off = bo.X, c
+							}
+						}
+						if c, ok := base.(*ssa.Call); ok {
+							if f := c.Call.StaticCallee(); f != nil && (fnPkgPath(f) == "strings" || fnPkgPath(f) == "bytes") && (f.Name() == "Index" || f.Name() == "LastIndex") && termKey(c.Call.Args[0], 0) == termKey(seq, 0) {
+								if sep, ok := constString(c.Call.Args[1]); ok && (off < int64(len(sep)) || (!nd.strict && off <= int64(len(sep)))) {
+									highOK, why = true, "strings.Index result plus at most the separator's length"
+								}
+							}
+						}
+					}
+					if !highOK && !nd.strict {
+						// a slice of a slice: s[a:b] where b bounds a is handled by the compiler's a<=b check only at run time; accept a<=b
+						// when both were accepted against len — nothing more to do here
+					}
+					if lowOK && highOK {
+						if !failed[key] {
+							r.OK(rule, key, p.pos(in.Pos()), "in bounds: "+why)
+						}
+					} else if !failed[key] {
+						failed[key] = true
+						r.Viol(rule, key, p.pos(in.Pos()), "the "+nd.what+" `"+text+"` is not shown to be within the sequence (index range "+iv.String()+", known minimum length "+lenLo.String()+a.ctxNote()+"): an input of the wrong shape panics here")
+					}
+				}
+			})
+		}
+	}
+	r.Check(n >= 30, rule, "sites", "-", itoa(n)+" index/slice bounds in the text decoders", "expected at least 30 index/slice sites, found "+itoa(n))
+}
+
+// lenLowerBound: the least length seq can have at block b according to the dominating comparisons of len(seq) with
+// constants (and, for a slice expression s[i:j] with constant bounds, its construction).
+func lenLowerBound(a *ivFn, seq ssa.Value, gs []Guard, b *ssa.BasicBlock) *big.Int {
+	lo := big.NewInt(0)
+	lk := "(len " + termKey(seq, 0) + ")"
+	full := kindOfType(types.Typ[types.Int]).full()
+	x := ibig(big.NewInt(0), full.hi)
+	for sweep := 0; sweep < 2; sweep++ {
+		for _, g := range gs {
+			l, rr, op, ok := relOf(g)
+			if !ok {
+				continue
+			}
+			var other ssa.Value
+			if termKey(l, 0) == lk {
+				other = rr
+			} else if termKey(rr, 0) == lk {
+				other = l
+				op = mirrorOp(op)
+			} else {
+				continue
+			}
+			o := a.get(other, b)
+			if o.top || o.float {
+				continue
+			}
+			x = constrain(x, op, o, false)
+		}
+	}
+	if x.lo.Cmp(lo) > 0 {
+		lo = x.lo
+	}
+	// strings.Index(seq, sep) is known non-negative: seq contains sep
+	for _, g := range gs {
+		l, rr, op, ok := relOf(g)
+		if !ok {
+			continue
+		}
+		for _, side := range []struct {
+			v, o ssa.Value
+			op   token.Token
+		}{{l, rr, op}, {rr, l, mirrorOp(op)}} {
+			c, ok := side.v.(*ssa.Call)
+			if !ok || c.Call.StaticCallee() == nil {
+				continue
+			}
+			f := c.Call.StaticCallee()
+			if !(fnPkgPath(f) == "strings" || fnPkgPath(f) == "bytes") || !(f.Name() == "Index" || f.Name() == "LastIndex") || termKey(c.Call.Args[0], 0) != termKey(seq, 0) {
+				continue
+			}
+			sep, ok := constString(c.Call.Args[1])
+			if !ok {
+				continue
+			}
+			o := a.get(side.o, b)
+			if o.top || o.float {
+				continue
+			}
+			r := constrain(ibig(big.NewInt(-1), full.hi), side.op, o, false)
+			if r.lo.Sign() >= 0 {
+				n := new(big.Int).Add(r.lo, big.NewInt(int64(len(sep))))
+				if n.Cmp(lo) > 0 {
+					lo = n
+				}
+			}
+		}
+	}
+	if sl, ok := seq.(*ssa.Slice); ok && sl.High != nil {
+		hi := a.get(sl.High, b)
+		l := ipoint(0)
+		if sl.Low != nil {
+			l = a.get(sl.Low, b)
+		}
+		if !hi.top && !l.top && !hi.float && !l.float {
+			d := new(big.Int).Sub(hi.lo, l.hi)
+			if d.Cmp(lo) > 0 {
+				lo = d
+			}
+		}
+	}
+	return lo
 }
